@@ -86,6 +86,13 @@ func genBatchProjects(root string, seed uint64, nProj int, tagProp string) ([]*S
 		}
 		sc.Project = fmt.Sprintf("p%02d", i)
 		sc.Weather.Folder = fmt.Sprintf("wx%02d", i)
+		if i == 1 && sc.ReducedTablesWithout == "" && len(sc.AliasCrops) == 0 {
+			// one project whose soil uses a texture class of its own: only its own parameter folder lists it (rows copied from
+			// the class the generator had drawn), every other line of the session runs with tables that do not know it
+			h := &sc.Soil.Horizons[0]
+			sc.PrivateTextureLike, sc.PrivateTexture = h.Texture, "XQ7"
+			h.Texture = "XQ7"
+		}
 		sc.ResultFormat = 1
 		sc.DailyCols = pairDailyCols(sc.Soil.N())
 		customCrop := ""
